@@ -212,6 +212,53 @@ theorem lead_at_most_one (score : Nat → Int) (es : List Elem) (i j : Nat)
     (hi : leadIndex score es = some i) (hj : leadIndex score es = some j) : i = j := by
   rw [hi] at hj; exact Option.some.inj hj
 
+/-! ### which candidate can be promoted: the two scorers -/
+
+/-- the lead-image filter, its two scorers, the nested-element retainer and the depth helpers are the
+regenerated statement lists the model was written against -/
+theorem lead_image_bodies_tie : Gen.leadImageBodies = Gen.leadImageBodiesExpected := by rfl
+
+/-- the only heuristics in use and their maxima -/
+theorem lead_heuristics_tie :
+    Gen.leadImageBodiesExpected.lookup "internal/filter/docfilter.LeadImageFinder.getLeadHeuristics" =
+      some ["return []scorer.ImageScorer{ scorer.NewImageDomDistanceScorer(25, firstContent), scorer.NewImageHasFigureScorer(15), }"] := by
+  decide +kernel
+
+/-- the caps never bite: a score is the plain sum of the two parts and at most 40 -/
+theorem imageScore_sum (d : Nat) (fig : Bool) :
+    imageScore d fig = ((domDistanceScore d + hasFigureScore fig : Nat) : Int) ∧ imageScore d fig ≤ 40 := by
+  unfold imageScore domDistanceScore hasFigureScore
+  cases fig <;> (repeat' split) <;> simp <;> omega
+
+/-- **The single exception, characterised**: an image or figure can be promoted as lead image exactly
+when it is (inside) a `figure` or at most five levels separate the first retained text from their
+nearest common ancestor — for every depth. -/
+theorem promotable_iff (d : Nat) (fig : Bool) : imageScore d fig > leadMinScore ↔ (fig = true ∨ d < 6) := by
+  have key : ∀ n : Nat, ((n : Int) > 13 ↔ n > 13) := by intro n; omega
+  unfold imageScore leadMinScore
+  rw [key]
+  unfold domDistanceScore hasFigureScore
+  cases fig
+  · by_cases h4 : d < 4
+    · simp [h4]; omega
+    · by_cases h6 : d < 6
+      · simp [h4, h6]
+      · by_cases h8 : d < 8
+        · simp [h4, h6, h8]
+        · simp [h4, h6, h8]
+  · by_cases h4 : d < 4
+    · simp [h4]
+    · by_cases h6 : d < 6
+      · simp [h4, h6]
+      · by_cases h8 : d < 8
+        · simp [h4, h6, h8]
+        · simp [h4, h6, h8]
+
+/-- a figure element is always above the threshold, wherever it is -/
+theorem figure_always_promotable (d : Nat) : imageScore d true > leadMinScore := (promotable_iff d true).mpr (Or.inl rfl)
+
+example : imageScore 3 false = 25 ∧ imageScore 5 false = 15 ∧ imageScore 7 false = 5 ∧ imageScore 9 true = 15 := by decide
+
 /-! ### non-vacuity: a concrete list that meets the hypotheses and exercises every clause -/
 
 def sample : List Elem :=
